@@ -51,9 +51,18 @@ def generate(rng, tier):
                 sigma = [rng.choice([1, 2, 3])] * nc
             elif sk == 'matrix':
                 sigma = spd(rng, nc)
+        a8 = [gen_vec(rng, m) for _ in range(rng.randint(1, 3))]
+        b8 = [gen_vec(rng, m) for _ in range(rng.randint(1, 3))]
+        if method in ('cosine', 'corr') and rng.random() < 0.25:
+            # an RDM without length (all zero; for the correlation: constant) inside a stack: its similarities are 0 by
+            # convention and must not disturb the other entries
+            stack = a8 if rng.random() < 0.5 else b8
+            while len(stack) < 3:
+                stack.append(gen_vec(rng, m))
+            stack[rng.randrange(len(stack) - 1)] = [0] * m if method == 'cosine' else [rng.randint(1, 9)] * m
         out.append(dict(kind=method + ':' + sk, method=method, n_cond=nc, sigma_kind=sk, sigma=sigma,
-                        a8=[gen_vec(rng, m) for _ in range(rng.randint(1, 3))],
-                        b8=[gen_vec(rng, m) for _ in range(rng.randint(1, 3))],
+                        a8=a8,
+                        b8=b8,
                         form=rng.choice(['rdms', 'array', 'array1d', 'mixed']),
                         shift=rng.choice([0, 0, 0, 30])))
     return out
@@ -182,6 +191,8 @@ def oracle(c, o):
     for i, x in enumerate(a):
         for j, y in enumerate(b):
             want = spec_measure(c, x, y)
+            if isinstance(want, float) and np.isnan(want) and c['method'] in ('cosine', 'corr'):
+                want = 0.0        # an RDM without length (zero / constant): the similarity is 0 by the toolbox's convention
             if not np.isclose(o['sim'][i][j], want, rtol=rtol, atol=rtol):
                 return f"entry ({i},{j}) of compare(method={c['method']}, sigma_k={c['sigma_kind']}) is {o['sim'][i][j]}, definition gives {want}"
     return None
